@@ -2,7 +2,7 @@
 //  PART 1 (token level): every stream of at most L tokens over a sub-alphabet (token ids symbolic):
 //          accept/reject agree; the tree dump (AST2String format) and every node range agree.
 //  PART 2 (text level): the stream is rendered to text (MATH or ASCII spelling, symbolic whitespace
-//          between tokens), lexed by the real lexer - token ids and code-point ranges must be the
+//          (spaces, tabs, one or SEVERAL line breaks) between tokens), lexed by the real lexer - token ids and code-point ranges must be the
 //          ones the text was built from -, parsed by Parser::Parse; the tree with ranges must equal
 //          the reference tree over the expected tokens; FindMinimalNode(root, r) must be the
 //          innermost reference node containing r, for every r.
@@ -65,17 +65,19 @@ extern "C" void harness_main() {
   std::string text;
   std::vector<Token> expected;
   int cp = 0;   // position in code points (MATH) / bytes (ASCII)
-  // whitespace pattern: 0 = only where needed, 1 = a space in every gap, 2 = a newline in gap k, 3 = two spaces in gap k
-  const int wsMode = sym_concretize_i32(sym_range(0, 3, "ws-mode"));
-  const int wsGap = wsMode >= 2 ? sym_concretize_i32(sym_range(1, n > 1 ? n - 1 : 1, "ws-gap")) : 0;
+  // whitespace pattern: 0 = only where needed, 1 = a space in every gap, 2 = a newline in gap k, 3 = two spaces in gap k,
+  // 4 = a newline in EVERY gap (several lines), 5 = newlines in gaps k and k+1, 6 = a tab in gap k
+  const int wsMode = sym_concretize_i32(sym_range(0, 6, "ws-mode"));
+  const int wsGap = (wsMode == 2 || wsMode == 3 || wsMode == 5 || wsMode == 6) ? sym_concretize_i32(sym_range(1, n > 1 ? n - 1 : 1, "ws-gap")) : 0;
   for (int i = 0; i < n; ++i) {
     // identifiers/keywords glued to the previous token would change the token: force a separator
     const bool prevWord = i > 0 && (tokens[i - 1].id == T::ID_GLOBAL || tokens[i - 1].id == T::ID_LOCAL || tokens[i - 1].id == T::LIT_INTEGER || tokens[i-1].id == T::ID_FUNCTION || tokens[i-1].id == T::ID_PREDICATE ||
                                     tokens[i - 1].id == T::SMALLPR || tokens[i - 1].id == T::BIGPR || tokens[i - 1].id == T::FILTER || tokens[i-1].id == T::CARD || tokens[i-1].id == T::DEBOOL ||
                                     tokens[i - 1].id == T::DECLARATIVE || tokens[i - 1].id == T::RECURSIVE || tokens[i - 1].id == T::IMPERATIVE);
     if (i > 0) {
-      if (wsMode == 2 && i == wsGap) { text += '\n'; ++cp; }
+      if ((wsMode == 2 && i == wsGap) || wsMode == 4 || (wsMode == 5 && (i == wsGap || i == wsGap + 1))) { text += '\n'; ++cp; }
       else if (wsMode == 3 && i == wsGap) { text += "  "; cp += 2; }
+      else if (wsMode == 6 && i == wsGap) { text += '\t'; ++cp; }
       else if (wsMode == 1 || prevWord) { text += ' '; ++cp; }
     }
     const std::string spelling = tokens[i].ToString(syntax);   // ASCII spellings carry their own surrounding spaces
